@@ -86,7 +86,11 @@ impl Prop for C04 {
                 let kind = case.call.kind();
                 let refenc = refmodel::ref_encode(&case.call, env.eid_resp);
                 let oversize = matches!(refenc, RefEnc::Refuse("message too large for the SMBus byte count"));
-                let (e, buf) = encode_in(env, &case.call, 640, |_| 0xEE);
+                let need = match &refenc {
+                    RefEnc::Refuse(_) => super::c16::wanted_len(&case.call) + 64,
+                    RefEnc::Packet(p) => p.body.len() + 74,
+                };
+                let (e, buf) = encode_in(env, &case.call, need.max(640), |_| 0xEE);
                 if oversize {
                     r.nontrivial = true;
                     r.label("oversize");
